@@ -237,7 +237,8 @@ impl<M: Math, A: MassMatrixAdaptStrategy<M>> AdaptStrategy<M> for GlobalStrategy
                 self.step_size
                     .init(math, options, hamiltonian, &position, rng)?;
             } else {
-                self.step_size.update_stepsize(rng, hamiltonian, false)
+                let is_last = draw == self.num_tune - 1;
+                self.step_size.update_stepsize(rng, hamiltonian, is_last)
             }
             #[cfg(nuts_rs_verif)]
             verif_adapt!("mass", force_update, did_change, verif_research,
